@@ -272,6 +272,33 @@ def run(e: Engine, rep: Report, rule: str):
         rep.error('anchor vanished: functions spawned into a queue pool '
                   '(%d < 4)' % len(hs))
         return
+    # a holder that never gives its slot back: an endless loop whose only
+    # ways out are exceptions.  In a pool of one that is every slot there is.
+    cq = common.merged_class(e, QUEUE)
+    for w, mname, spawner, call in hs:
+        m = cq.methods.get(mname)
+        if m is None:
+            continue
+        for lp in walk_own(m.node):
+            if not (isinstance(lp, ast.While) and
+                    isinstance(lp.test, ast.Constant) and lp.test.value):
+                continue
+            handlers = [h for t in ast.walk(lp) if isinstance(t, ast.Try)
+                        for h in t.handlers]
+            exits = [x for x in ast.walk(lp)
+                     if isinstance(x, (ast.Return, ast.Break)) and not any(
+                         any(y is x for y in ast.walk(h)) for h in handlers)]
+            rep.evaluations += 1
+            rep.check(bool(exits), rule, QUEUE + '.' + mname,
+                      '%s gives its %s slot back' % (mname, w),
+                      '%s is spawned into the %s pool and loops for ever '
+                      '(the only ways out of its `while True` are exception '
+                      'arms): it keeps a slot for the life of the queue - '
+                      'with %s_pool=1 that is the only one, so no other '
+                      '%s operation ever runs: stored messages are never '
+                      'dequeued, new ones cannot be written'
+                      % (mname, w, w, w), loc=m.loc(lp),
+                      reason='the loop has a normal exit')
     edges = []         # (P, Q, holder method, chain, site ast, func)
     seen = set()
     defers = spawn_defers(e, rep, rule, pools)
